@@ -560,7 +560,7 @@ func (vc *VC) indexAddr(x *ssa.IndexAddr) SVal {
 		vc.oblige("index", R, and(le("0", i), lt(i, base.ln())), x.Pos(), "slice index out of range")
 		el := u.Elem()
 		fl := litI(flatLen(el))
-		p := ptrV(x.Type(), base.obj(), vc.def("ix", SInt, add(base.off(), mul(i, fl))))
+		p := ptrV(x.Type(), base.obj(), vc.def("ix", SInt, idx(base.off(), mul(i, fl))))
 		p.Key = ptrKeyFor(el)
 		if _, isArr := el.Underlying().(*types.Array); isArr {
 			p.Key = typeKey(flatElem(el))
@@ -575,7 +575,7 @@ func (vc *VC) indexAddr(x *ssa.IndexAddr) SVal {
 		}
 		el := arr.Elem()
 		fl := litI(flatLen(el))
-		p := ptrV(x.Type(), base.obj(), vc.def("ix", SInt, add(base.off(), mul(i, fl))))
+		p := ptrV(x.Type(), base.obj(), vc.def("ix", SInt, idx(base.off(), mul(i, fl))))
 		p.Key = base.Key
 		if p.Key == "" {
 			p.Key = ptrKeyFor(el)
@@ -613,7 +613,7 @@ func (vc *VC) index(x *ssa.Index) SVal {
 		return v
 	case *types.Basic: // string
 		vc.oblige("index", R, and(le("0", i), lt(i, base.ln())), x.Pos(), "string index out of range")
-		v := intV(vc.def("sb", SInt, vc.leafLoad(vc.curMem, "uint8", SInt, base.obj(), add(base.off(), i))), x.Type())
+		v := intV(vc.def("sb", SInt, vc.leafLoad(vc.curMem, "uint8", SInt, base.obj(), idx(base.off(), i))), x.Type())
 		vc.fact("true", rangeFact(v.S, x.Type()))
 		return v
 	}
